@@ -136,6 +136,7 @@ Ser(nd, ch0, inList, inQ) ==
                          Ln(IF Code(nd[2]).lines[j] = "" THEN "" ELSE (IF ch.tab /\ ~inList /\ ~inQ THEN "\t" ELSE "    ") \o Code(nd[2]).lines[j], FALSE)]
     [] k = "html" -> Plain(Html(nd[2]))
     [] k = "quote" -> PrefixLines(Spaces(ch.qlead) \o "> ", Spaces(ch.qlead) \o "> ", Spaces(ch.qlead) \o ">", SerSeq(nd[3], ch, FALSE, inList, TRUE, 1), ch.lazy)
+    [] k = "equote" -> <<Ln(Spaces(ch.qlead) \o ">", FALSE)>>          \* a block quote without content: its marker alone
     [] k = "ul" -> SerItems(nd[3], ch, ~nd[2], FALSE, inQ, 1)
     [] k = "ol" -> SerItems(nd[3], ch, ~nd[2], TRUE, inQ, 1)
     [] k = "li" -> <<>>
@@ -181,6 +182,7 @@ Den(nd, tight, c) ==
     [] k = "icode" -> "<pre><code>" \o CodeHtml(Code(nd[2]).html, e, 1) \o "</code></pre>"
     [] k = "html" -> HtmlBlock(Html(nd[2]), e, 1)
     [] k = "quote" -> "<blockquote>" \o DenSeq(nd[3], FALSE, c) \o "</blockquote>"
+    [] k = "equote" -> "<blockquote></blockquote>"
     [] k = "ul" -> "<ul>" \o DenSeq(nd[3], nd[2], c) \o "</ul>"
     [] k = "ol" -> (IF c.ostart # 1 THEN "<ol start=\"" \o Digits(c.ostart) \o "\">" ELSE "<ol>") \o DenSeq(nd[3], nd[2], c) \o "</ol>"
     [] k = "li" -> "<li>" \o DenSeq(nd[3], tight, c) \o "</li>"
@@ -255,6 +257,7 @@ FB(nd, idx, ptight, c, st) ==
     [] k = "icode" -> WT(WT(WT(SepT(st, ptight), <<FmtFence(nd[2]), NL>>), TokLines(Code(nd[2]).lines)), <<FmtFence(nd[2]), NL>>)
     [] k = "html" -> WT(SepT(st, ptight), TokLines(Html(nd[2])))
     [] k = "quote" -> PopI(FSeq(nd[3], 1, FALSE, c, PushI(W(SepT(st, ptight), "> "), "> ")))
+    [] k = "equote" -> WT(SepT(st, ptight), <<"> ", NL>>)               \* the marker, and postBlock ends the line nothing else has ended
     [] k = "ul" -> FItems(nd[3], 1, nd[2], FALSE, c, SepT(st, ptight))
     [] k = "ol" -> FItems(nd[3], 1, nd[2], TRUE, c, SepT(st, ptight))
 FSeq(kids, i, ptight, c, st) == IF i > Len(kids) THEN st ELSE FSeq(kids, i + 1, ptight, c, FB(kids[i], i - 1, ptight, c, st))
@@ -281,7 +284,7 @@ FmtInl == (1..NInl) \ {7, 27}      \* 7: <...> destination; 27: destination and 
 MultiLineVerbatim(i) == i \in {16, 17}      \* code span, raw tag (links / references with line endings in text, destination, title are re-assembled: supported)
 Leaves ==
   CASE LeafSet \in {"structure", "fstructure"} -> {<<"para", 1, <<>>>>, <<"para", 2, <<>>>>, <<"atx", <<2, 1>>, <<>>>>, <<"setext", <<1, 2>>, <<>>>>, <<"hr", 0, <<>>>>,
-                                 <<"fence", <<TRUE, 2>>, <<>>>>, <<"icode", 1, <<>>>>, <<"html", 1, <<>>>>}
+                                 <<"fence", <<TRUE, 2>>, <<>>>>, <<"icode", 1, <<>>>>, <<"html", 1, <<>>>>, <<"equote", 0, <<>>>>}
     [] LeafSet = "inline" -> {<<"para", i, <<>>>> : i \in 1..NInl} \cup {<<"atx", <<3, i>>, <<>>>> : i \in {j \in 1..NInl : SingleLine(j)}}
                              \cup {<<"setext", <<2, i>>, <<>>>> : i \in {2, 6, 14, 15, 16, 20, 28}}
     [] LeafSet = "finline" -> {<<"para", i, <<>>>> : i \in FmtInl} \cup {<<"atx", <<3, i>>, <<>>>> : i \in {j \in FmtInl : SingleLine(j)}}
@@ -301,8 +304,10 @@ InList == \E d \in 1..Len(stack) : stack[d].kind = "li"
 \* heading, a thematic break, a fence, an HTML block of type 1-6, a block quote, a bullet item or an ordered item numbered 1; a line
 \* behind a quote or a nested list whose last paragraph is still open must not be a lazy continuation line; an HTML block of type 6
 \* only ends at a blank line, so nothing follows it.
-TightPairOK(a, bk, b) ==
-  LET ak == a[1]
+TightPairOK(a, bk0, b) ==
+  LET Q(x) == IF x = "equote" THEN "quote" ELSE x       \* an empty quote starts and ends like any quote
+      ak == Q(a[1])
+      bk == Q(bk0)
       htmlOK == bk = "html" /\ b[2] \in {1, 2}
   IN CASE ak = "para" -> bk \in {"atx", "hr", "fence", "quote", "ul"} \/ htmlOK \/ (bk = "ol" /\ ch.ostart = 1)
        [] ak \in {"atx", "setext", "hr", "fence"} -> bk \in {"para", "atx", "setext", "hr", "fence", "icode", "quote", "ul", "ol"} \/ htmlOK
